@@ -906,8 +906,8 @@ def run(repo, R):
                    where=ev.where, expected="arguments left intact")
         if not bad:
             R.ok("E1", f.site, "mutate-set(params)=={}", detail={"params": f.params})
-    R.floor("P1", R.rules["P1"][0], 8, "stride obligations over 3 splits")
-    R.floor("P3", R.rules["P3"][0], 10, "number-token obligations")
+    R.floor("P1", R.rules["P1"][0], 5, "stride obligations over 3 splits")
+    R.floor("P3", R.rules["P3"][0], 6, "number-token obligations")
     R.assumptions += [
         "NWChem header line is `<element> <letters>`, Gaussian94 element line `<element> 0` and shell line `<letters> <n> <scale>`",
         "python re semantics: re.split returns text, groups..., text, ...; FIRST sets from re._parser",
